@@ -26,7 +26,7 @@ def cond_class(kind, pre):
 def arg_obj(a):
     """term argument -> python object handed to the DSL"""
     if M.is_typeref(a):
-        return M.TYPES[a["$type"]]
+        return M.TYPES.get(a["$type"]) or M.TYPES_EXTRA[a["$type"]]
     if M.is_pathref(a):
         return path_obj(a["$path"])
     if type(a) is list:
@@ -186,8 +186,11 @@ def arg_spec(a, sp, level=0):
     if type(a) is list:
         return [arg_spec(i, sp, level + 1) for i in a]
     if type(a) is dict:
-        out = {k: arg_spec(v, sp, level + 1) for k, v in a.items()}
-        return escape_literal_mapping(out) if level <= 1 else out
+        if level <= 1 and looks_like_path_spec(a):
+            # an escaped mapping is returned as it is by the parser: nothing inside it is
+            # looked at, so nothing inside it is escaped
+            return escape_literal_mapping({k: arg_spec(v, sp, 99) for k, v in a.items()})
+        return {k: arg_spec(v, sp, level + 1) for k, v in a.items()}
     return a
 
 
@@ -212,10 +215,6 @@ def escape_literal_mapping(d):
         return d
     (k, v), = d.items()
     if not k.startswith("path"):
-        raise Inexpressible(k)
-    if _has_escaped_key(v) or (type(v) is list and any(_has_escaped_key(i) for i in v)):
-        # valida un-escapes the keys of an escaped mapping but then does not look inside it:
-        # a path-like literal nested in a path-like literal has no spelling
         raise Inexpressible(k)
     return {"\\" + k: v}
 
@@ -274,7 +273,9 @@ def leaf_spec(term, sp):
     if sig[0] == "varpos":
         return {key: [arg_spec(a, sp, 1) for a in args]}
     if sig[0] == "varkw":
-        return {key: escape_literal_mapping({k: arg_spec(v, sp, 1) for k, v in kwargs.items()})}
+        if looks_like_path_spec(kwargs):
+            return {key: escape_literal_mapping({k: arg_spec(v, sp, 99) for k, v in kwargs.items()})}
+        return {key: {k: arg_spec(v, sp, 1) for k, v in kwargs.items()}}
     raise ValueError(sig)
 
 
